@@ -280,6 +280,9 @@ def c08(chk, tier):
     # but it must not depend on the presentation (judged by TraceShift.tla across presentations)
     replay_curves(chk, "MCCurves views, 4 short pieces (ties between bodies)",
                   C("{4}", "{2, 5}" if q else "{2, 5, 8}", "{1}" if q else "{1, 2}", "{2}", views="TRUE"), what, invs)
+    # pieces whose level does not move at all (they cross no level): left out, wherever they are presented
+    replay_curves(chk, "MCCurves views, 3-4 pieces, some flat",
+                  C("{3}" if q else "{3, 4}", "{3, 4, 5}" if q else "{2, 4, 5}", "{1, 2}", "{2}", "DirDownFlat", views="TRUE"), what, invs)
     # rising and falling pieces mixed: a level can bridge two groups that already exist
     replay_curves(chk, "MCCurves mixed directions, 3-4 pieces",
                   C("{3, 4}" if q else "{4}", "{2, 4, 5}" if q else "{1, 2, 4, 5}", "{1, 2}" if q else "{1, 2, 3}", "{2}", "DirBoth"), what, invs)
